@@ -17,6 +17,7 @@ def msg_hash(m):
 
 def msg_tx_common(m):
     return (nonempty_hexfield(m, "tx") and jhas(m, "input") and jtag(m["input"]) == T_INT
+            and jint(m["input"]) >= 0 and jint(m["input"]) <= 4294967295
             and jhas(m, "sighashComputationMode") and jtag(m["sighashComputationMode"]) == T_STR)
 
 
